@@ -100,6 +100,18 @@ fn multi_incarnation(tier: Tier, chunks: usize, dir: &std::path::Path) -> Vec<Sc
     v
 }
 
+/// Clean restarts (no crash) over records of family 4, from nothing: 1+1 and 2+1 publications (1+1: if the
+/// successor started the generation afresh it would be back at the predecessor's value after its first publication).
+fn restarts_with_rejected_records() -> Vec<Scenario> {
+    let mut v = vec![];
+    for init in [Init::Absent] {
+        for (a, b) in [(1usize, 1usize), (2, 1)] {
+            v.push(Scenario { init: init.clone(), incs: vec![(a, None), (b, None)], chunks: 2, family: 4, file_times: 0 });
+        }
+    }
+    v
+}
+
 fn record_all(scs: Vec<Scenario>, base: &std::path::Path) -> Vec<Work> {
     let res = par::map(scs.len(), |i| {
         let dir = thread_dir(base);
@@ -301,6 +313,19 @@ fn judge(prop: Prop, w: &Work, cfg: &ExploreCfg, tr: &Transition, agg: &mut Agg)
     }
 }
 
+/// The calling (forked worker) process may from now on run only on the CPU it is running on.
+fn confine_to_one_cpu() {
+    // SAFETY: plain system calls on the calling process with a properly initialised set
+    unsafe {
+        let cpu = libc::sched_getcpu();
+        if cpu >= 0 {
+            let mut set: libc::cpu_set_t = std::mem::zeroed();
+            libc::CPU_SET(cpu as usize, &mut set);
+            libc::sched_setaffinity(0, std::mem::size_of::<libc::cpu_set_t>(), &set);
+        }
+    }
+}
+
 struct Plan {
     works: Vec<Work>,
     mode: Mode,
@@ -312,6 +337,8 @@ struct Plan {
     /// the client's monotonic clock reads 0.4 s after the as-of of the first record a reader can hold (so that the
     /// record it caches is "fresh"); otherwise the real clock, for which every record of the scenarios is ancient
     fresh_clock: bool,
+    /// the exploring process confines itself to one CPU first (sched_setaffinity)
+    one_cpu: bool,
     label: &'static str,
 }
 
@@ -346,6 +373,9 @@ fn run_plan(ctx: &Ctx, prop: Prop, plan: &Plan, deadline: f64, agg: &mut Agg) {
         if acc.0.counts.values().sum::<u64>() >= 25 {
             acc.0.stats.capped = true;
             return;
+        }
+        if plan.one_cpu {
+            confine_to_one_cpu();
         }
         let (wi, end, attach) = items[i];
         let w = &plan.works[wi];
@@ -411,6 +441,11 @@ fn run_plan(ctx: &Ctx, prop: Prop, plan: &Plan, deadline: f64, agg: &mut Agg) {
         }
         local.attach_ok = attach_ok;
         local.stats.merge(&stats);
+        if plan.one_cpu {
+            for (_, v) in local.best.values_mut() {
+                v.replay["environment"] = json!("one-cpu");
+            }
+        }
         acc.0.merge(local);
         },
         |acc| acc.0.to_json(),
@@ -431,7 +466,7 @@ fn least_privilege_phase(ctx: &Ctx, deadline: f64, agg: &mut Agg) -> Value {
         let base = ctx.scratch();
         let dir0 = thread_dir(&base);
         let multi = multi_incarnation(Tier::Quick, 2, &dir0);
-        let plan = Plan { works: record_all(multi, &base), mode: Mode::Sc, dev_bound: u32::MAX, stop_points: false, full_spin: false, fresh_clock: false, label: "least privilege" };
+        let plan = Plan { works: record_all(multi, &base), mode: Mode::Sc, dev_bound: u32::MAX, stop_points: false, full_spin: false, fresh_clock: false, one_cpu: false, label: "least privilege" };
         let mut a = Agg::new();
         run_plan(ctx, Prop::C04, &plan, deadline, &mut a);
         let ws: Vec<&Work> = plan.works.iter().collect();
@@ -475,6 +510,19 @@ fn confirm(ctx: &Ctx, v: &Violation) -> Result<(), String> {
 }
 
 fn replay_doc_run(ctx: &Ctx, doc: &Value) -> Result<String, String> {
+    if doc["environment"] == "one-cpu" {
+        // in a child process (the confinement cannot be undone)
+        let mut d = doc.clone();
+        d.as_object_mut().unwrap().remove("environment");
+        let v = crate::common::privdrop::run_opts(|| { confine_to_one_cpu(); match replay_doc_run(ctx, &d) {
+            Ok(s) => json!({"ok": s}),
+            Err(e) => json!({"err": e}),
+        } }, false, false)?;
+        return match v["ok"].as_str() {
+            Some(s) => Ok(s.to_string()),
+            None => Err(v["err"].as_str().unwrap_or("?").to_string()),
+        };
+    }
     if doc["environment"] == "least-privilege" {
         let mut d = doc.clone();
         d.as_object_mut().unwrap().remove("environment");
@@ -696,41 +744,45 @@ fn run_reader_prop(ctx: &Ctx, prop: Prop, lit: (usize, u64)) -> i32 {
     let unb = u32::MAX;
     match prop {
         Prop::C02 | Prop::C03 => {
-            plans.push(Plan { works: record_all(single_incarnation(tier, 2, &[1, 2]), &base), mode: Mode::Ra, dev_bound: unb, stop_points: false, full_spin: false, fresh_clock: false, label: "RA, K<=2 updates, 2 record chunks, all read-from choices" });
-            plans.push(Plan { works: record_all(single_incarnation(tier, 7, &[1, 2, 3]), &base), mode: Mode::Ra, dev_bound: tier.pick(3, 5), stop_points: false, full_spin: false, fresh_clock: false, label: "RA, K<=3 updates, 7 record words, bounded stale reads" });
+            plans.push(Plan { works: record_all(single_incarnation(tier, 2, &[1, 2]), &base), mode: Mode::Ra, dev_bound: unb, stop_points: false, full_spin: false, fresh_clock: false, one_cpu: false, label: "RA, K<=2 updates, 2 record chunks, all read-from choices" });
+            plans.push(Plan { works: record_all(single_incarnation(tier, 7, &[1, 2, 3]), &base), mode: Mode::Ra, dev_bound: tier.pick(3, 5), stop_points: false, full_spin: false, fresh_clock: false, one_cpu: false, label: "RA, K<=3 updates, 7 record words, bounded stale reads" });
             // publications that differ from their predecessor in the status word only (what the daemon really
             // publishes while the bound is frozen): a reader that short-cuts on "nothing I look at changed"
             // would go unnoticed with records that differ everywhere
             let fam1: Vec<Scenario> = single_incarnation(tier, 2, &[1, 2]).into_iter().map(|mut s| { s.family = 1; s }).collect();
-            plans.push(Plan { works: record_all(fam1.clone(), &base), mode: Mode::Sc, dev_bound: unb, stop_points: false, full_spin: false, fresh_clock: false, label: "SC, K<=2 updates that change the status word only, all interleavings" });
-            plans.push(Plan { works: record_all(fam1, &base), mode: Mode::Ra, dev_bound: tier.pick(3, 5), stop_points: false, full_spin: false, fresh_clock: false, label: "RA, K<=2 updates that change the status word only, bounded stale reads" });
+            plans.push(Plan { works: record_all(fam1.clone(), &base), mode: Mode::Sc, dev_bound: unb, stop_points: false, full_spin: false, fresh_clock: false, one_cpu: false, label: "SC, K<=2 updates that change the status word only, all interleavings" });
+            plans.push(Plan { works: record_all(fam1, &base), mode: Mode::Ra, dev_bound: tier.pick(3, 5), stop_points: false, full_spin: false, fresh_clock: false, one_cpu: false, label: "RA, K<=2 updates that change the status word only, bounded stale reads" });
             for (fam, what_sc, what_ra) in [
                 (2u8, "SC, K<=3 updates alternating a real record with the all-zero placeholder, all interleavings", "RA, same records, bounded stale reads"),
                 (3u8, "SC, K<=3 updates republishing an identical record, all interleavings", "RA, same records, bounded stale reads"),
             ] {
                 let scs: Vec<Scenario> = single_incarnation(Tier::Quick, 2, &[2, 3]).into_iter().map(|mut s| { s.family = fam; s }).collect();
-                plans.push(Plan { works: record_all(scs.clone(), &base), mode: Mode::Sc, dev_bound: unb, stop_points: false, full_spin: false, fresh_clock: false, label: what_sc });
-                plans.push(Plan { works: record_all(scs, &base), mode: Mode::Ra, dev_bound: tier.pick(2, 4), stop_points: false, full_spin: false, fresh_clock: false, label: what_ra });
+                plans.push(Plan { works: record_all(scs.clone(), &base), mode: Mode::Sc, dev_bound: unb, stop_points: false, full_spin: false, fresh_clock: false, one_cpu: false, label: what_sc });
+                plans.push(Plan { works: record_all(scs, &base), mode: Mode::Ra, dev_bound: tier.pick(2, 4), stop_points: false, full_spin: false, fresh_clock: false, one_cpu: false, label: what_ra });
             }
             // the client's own clock: records whose as-of is a fraction of a second ago (a reader that decides by the age of
             // what it holds takes another path than with the ancient records of the other plans)
-            plans.push(Plan { works: record_all(single_incarnation(Tier::Quick, 2, &[2]), &base), mode: Mode::Sc, dev_bound: unb, stop_points: false, full_spin: false, fresh_clock: true, label: "SC, K=2 updates, the client's monotonic clock 0.4 s after the first record's as-of" });
+            plans.push(Plan { works: record_all(single_incarnation(Tier::Quick, 2, &[2]), &base), mode: Mode::Sc, dev_bound: unb, stop_points: false, full_spin: false, fresh_clock: true, one_cpu: false, label: "SC, K=2 updates, the client's monotonic clock 0.4 s after the first record's as-of" });
             if prop == Prop::C02 {
-                plans.push(Plan { works: record_all(single_incarnation(tier, 2, &[1, 2]), &base), mode: Mode::Ra, dev_bound: tier.pick(2, 4), stop_points: true, full_spin: true, fresh_clock: false, label: "RA, writer stops for ever at every point (calls that exhaust their retries are run in full), bounded stale reads" });
+                // the client confined to ONE CPU (taskset, a one-CPU cpuset): what the process may run on is an input like
+                // any other (std::thread::available_parallelism() answers 1); the daemon still runs elsewhere
+                plans.push(Plan { works: record_all(single_incarnation(Tier::Quick, 2, &[2]), &base), mode: Mode::Ra, dev_bound: unb, stop_points: false, full_spin: false, fresh_clock: false, one_cpu: true, label: "RA, K=2 updates, all read-from choices, the reader's process confined to one CPU" });
+                plans.push(Plan { works: record_all(single_incarnation(tier, 2, &[1, 2]), &base), mode: Mode::Ra, dev_bound: tier.pick(2, 4), stop_points: true, full_spin: true, fresh_clock: false, one_cpu: false, label: "RA, writer stops for ever at every point (calls that exhaust their retries are run in full), bounded stale reads" });
             }
             if prop == Prop::C03 {
-                plans.push(Plan { works: record_all(single_incarnation(tier, 2, &[1, 2, 3]), &base), mode: Mode::Sc, dev_bound: unb, stop_points: false, full_spin: false, fresh_clock: false, label: "SC, K<=3 updates, 2 record chunks, all interleavings" });
+                plans.push(Plan { works: record_all(restarts_with_rejected_records(), &base), mode: Mode::Sc, dev_bound: unb, stop_points: false, full_spin: false, fresh_clock: false, one_cpu: false, label: "SC, clean restarts over records a client's now() rejects (drift >= 2e9 ppb), readers attached across the restart" });
+                plans.push(Plan { works: record_all(single_incarnation(tier, 2, &[1, 2, 3]), &base), mode: Mode::Sc, dev_bound: unb, stop_points: false, full_spin: false, fresh_clock: false, one_cpu: false, label: "SC, K<=3 updates, 2 record chunks, all interleavings" });
             }
             if tier == Tier::Thorough {
-                plans.push(Plan { works: record_all(single_incarnation(tier, 2, &[3]), &base), mode: Mode::Ra, dev_bound: unb, stop_points: false, full_spin: false, fresh_clock: false, label: "RA, K=3 updates, 2 record chunks, all read-from choices" });
-                plans.push(Plan { works: record_all(single_incarnation(tier, 4, &[2]), &base), mode: Mode::Ra, dev_bound: unb, stop_points: false, full_spin: false, fresh_clock: false, label: "RA, K=2 updates, 4 record chunks, all read-from choices" });
+                plans.push(Plan { works: record_all(single_incarnation(tier, 2, &[3]), &base), mode: Mode::Ra, dev_bound: unb, stop_points: false, full_spin: false, fresh_clock: false, one_cpu: false, label: "RA, K=3 updates, 2 record chunks, all read-from choices" });
+                plans.push(Plan { works: record_all(single_incarnation(tier, 4, &[2]), &base), mode: Mode::Ra, dev_bound: unb, stop_points: false, full_spin: false, fresh_clock: false, one_cpu: false, label: "RA, K=2 updates, 4 record chunks, all read-from choices" });
             }
         }
         Prop::C04 => {
             let multi = multi_incarnation(tier, 2, &dir0);
-            plans.push(Plan { works: record_all(multi.clone(), &base), mode: Mode::Sc, dev_bound: unb, stop_points: false, full_spin: false, fresh_clock: false, label: "SC, crash at every point of the first incarnation + restart, all interleavings" });
-            plans.push(Plan { works: record_all(multi, &base), mode: Mode::Ra, dev_bound: tier.pick(3, 5), stop_points: false, full_spin: false, fresh_clock: false, label: "RA, crash at every point + restart, bounded stale reads" });
-            plans.push(Plan { works: record_all(single_incarnation(tier, 2, &[1, 2]), &base), mode: Mode::Sc, dev_bound: unb, stop_points: true, full_spin: true, fresh_clock: false, label: "SC, writer dies for good at every point (calls that exhaust their retries are run in full)" });
+            plans.push(Plan { works: record_all(multi.clone(), &base), mode: Mode::Sc, dev_bound: unb, stop_points: false, full_spin: false, fresh_clock: false, one_cpu: false, label: "SC, crash at every point of the first incarnation + restart, all interleavings" });
+            plans.push(Plan { works: record_all(multi, &base), mode: Mode::Ra, dev_bound: tier.pick(3, 5), stop_points: false, full_spin: false, fresh_clock: false, one_cpu: false, label: "RA, crash at every point + restart, bounded stale reads" });
+            plans.push(Plan { works: record_all(single_incarnation(tier, 2, &[1, 2]), &base), mode: Mode::Sc, dev_bound: unb, stop_points: true, full_spin: true, fresh_clock: false, one_cpu: false, label: "SC, writer dies for good at every point (calls that exhaust their retries are run in full)" });
             // what the file's time stamps say is no part of the protocol: a daemon that was up for 40 minutes leaves a
             // file "last modified" 40 minutes ago (stores through the mapping do not move st_mtime), a stepped wall
             // clock leaves one older than the boot or from the future. Restarts and attaches with such stamps.
@@ -743,14 +795,28 @@ fn run_reader_prop(ctx: &Ctx, prop: Prop, lit: (usize, u64)) -> i32 {
                     }
                 }
             }
-            plans.push(Plan { works: record_all(aged, &base), mode: Mode::Sc, dev_bound: unb, stop_points: false, full_spin: false, fresh_clock: false, label: "SC, restart after a clean exit / a crash mid-update on a segment file whose time stamps are 40 min old, from 2001, or 1 h ahead, or whose mode is 0664 / 0666, or that belongs to another user (uid 65534, mode 0644 / 0666)" });
+            // what was at the path before matters to a wipe that does not start from an empty file: segments that are
+            // valid but for one header field (a foreign magic number, version 0, generation 0, a short declared size),
+            // every crash point of the repairing incarnation, then a restart
+            let mut almost: Vec<Scenario> = vec![];
+            for (off, val) in [(0usize, 0x58u8), (4, 0x58), (12, 0), (14, 0), (8, 40)] {
+                let mut b = valid_file(6, &tagged(777));
+                b[off] = val;
+                if off == 12 || off == 14 {
+                    b[off + 1] = 0;
+                }
+                almost.extend(with_crashes(&Scenario { init: Init::Bytes(b), incs: vec![(1, None), (1, None)], chunks: 2, family: 0, file_times: 0 }, &dir0));
+            }
+            plans.push(Plan { works: record_all(almost, &base), mode: Mode::Sc, dev_bound: unb, stop_points: false, full_spin: false, fresh_clock: false, one_cpu: false, label: "SC, repair of a segment that is valid but for one header field (foreign magic, version 0, generation 0, declared size 40), crash at every point + restart" });
+            plans.push(Plan { works: record_all(restarts_with_rejected_records(), &base), mode: Mode::Sc, dev_bound: unb, stop_points: false, full_spin: false, fresh_clock: false, one_cpu: false, label: "SC, clean restarts over records a client's now() rejects (drift >= 2e9 ppb)" });
+            plans.push(Plan { works: record_all(aged, &base), mode: Mode::Sc, dev_bound: unb, stop_points: false, full_spin: false, fresh_clock: false, one_cpu: false, label: "SC, restart after a clean exit / a crash mid-update on a segment file whose time stamps are 40 min old, from 2001, or 1 h ahead, or whose mode is 0664 / 0666, or that belongs to another user (uid 65534, mode 0644 / 0666)" });
         }
         Prop::C18 => {
-            plans.push(Plan { works: record_all(single_incarnation(tier, 2, &[1, 2]), &base), mode: Mode::Ra, dev_bound: tier.pick(2, 4), stop_points: true, full_spin: true, fresh_clock: false, label: "RA, writer stops for ever at every point, bounded stale reads" });
-            plans.push(Plan { works: record_all(single_incarnation(tier, 2, &[1, 2]), &base), mode: Mode::Sc, dev_bound: unb, stop_points: true, full_spin: true, fresh_clock: false, label: "SC, writer stops for ever at every point, all interleavings" });
-            plans.push(Plan { works: record_all(single_incarnation(Tier::Quick, 2, &[2]), &base), mode: Mode::Sc, dev_bound: unb, stop_points: true, full_spin: true, fresh_clock: true, label: "SC, writer stops for ever at every point, the client's monotonic clock 0.4 s after the first record's as-of" });
+            plans.push(Plan { works: record_all(single_incarnation(tier, 2, &[1, 2]), &base), mode: Mode::Ra, dev_bound: tier.pick(2, 4), stop_points: true, full_spin: true, fresh_clock: false, one_cpu: false, label: "RA, writer stops for ever at every point, bounded stale reads" });
+            plans.push(Plan { works: record_all(single_incarnation(tier, 2, &[1, 2]), &base), mode: Mode::Sc, dev_bound: unb, stop_points: true, full_spin: true, fresh_clock: false, one_cpu: false, label: "SC, writer stops for ever at every point, all interleavings" });
+            plans.push(Plan { works: record_all(single_incarnation(Tier::Quick, 2, &[2]), &base), mode: Mode::Sc, dev_bound: unb, stop_points: true, full_spin: true, fresh_clock: true, one_cpu: false, label: "SC, writer stops for ever at every point, the client's monotonic clock 0.4 s after the first record's as-of" });
             let rep: Vec<Scenario> = single_incarnation(Tier::Quick, 2, tier.pick(&[2][..], &[2, 3][..])).into_iter().filter(|s| tier == Tier::Thorough || matches!(s.init, Init::Absent | Init::Valid(2))).map(|mut s| { s.family = 3; s }).collect();
-            plans.push(Plan { works: record_all(rep, &base), mode: Mode::Sc, dev_bound: unb, stop_points: true, full_spin: true, fresh_clock: false, label: "SC, an identical record republished, writer stops for ever at every point" });
+            plans.push(Plan { works: record_all(rep, &base), mode: Mode::Sc, dev_bound: unb, stop_points: true, full_spin: true, fresh_clock: false, one_cpu: false, label: "SC, an identical record republished, writer stops for ever at every point" });
         }
     }
     // (C02) the explorer's verdicts are about ONE producer; that the daemon has only one is checked on the daemon
